@@ -5,12 +5,11 @@
 # the demonstration fails with the patch.  Writes /var/tmp/confirm_<id>_<n>.log
 # and prints one summary line.  The worktree is removed afterwards.
 id=$1; n=$2
-raw=/verif/seeded_raw/$id/$n
+raw=/verif/seeded/$id-$n
 wt=/tmp/cw_${id}_$n
 log=/var/tmp/confirm_${id}_$n.log
 export GOFLAGS=-mod=mod GOPROXY=off
 patch=$raw/patch.diff
-[ -f $raw/patch_adapted.diff ] && patch=$raw/patch_adapted.diff
 git -C /repo worktree remove --force $wt >/dev/null 2>&1
 rm -rf $wt
 git -C /repo worktree add -q --detach $wt HEAD || { echo "$id/$n worktree-failed"; exit 2; }
@@ -18,7 +17,7 @@ mkdir -p $wt/out && cp -r $raw $wt/out/$n
 cd $wt
 {
 echo "=== demo on pristine tree"
-timeout 1800 sh out/$n/demo.sh; p_rc=$?
+timeout 1800 bash out/$n/demo.sh; p_rc=$?
 echo "=== pristine demo exit=$p_rc"
 # packages touched by the patch (directories of .go files)
 pk=$(grep '^+++ b/' $patch | sed 's#^+++ b/##' | grep '\.go$' | xargs -n1 dirname | sort -u)
@@ -47,7 +46,7 @@ sed -E 's/[0-9.]+s//g' /var/tmp/confirm_${id}_${n}_tq.txt > /var/tmp/confirm_${i
 if diff /var/tmp/confirm_${id}_${n}_tp2.txt /var/tmp/confirm_${id}_${n}_tq2.txt; then t_same=same; else t_same=DIFFERENT; fi
 cat /var/tmp/confirm_${id}_${n}_tq.txt
 echo "=== demo on patched tree"
-timeout 1800 sh out/$n/demo.sh; q_rc=$?
+timeout 1800 bash out/$n/demo.sh; q_rc=$?
 echo "=== patched demo exit=$q_rc"
 } > $log 2>&1
 p_rc=$(grep -o 'pristine demo exit=[0-9]*' $log | cut -d= -f2)
